@@ -213,7 +213,7 @@ def answer (op : String) (args : List String) : String :=
     | _, _ => "badreq"
   | "vfmt", [a] =>
     match decodeVersion a with
-    | some a => encodeText a.render
+    | some a => s!"{encodeText a.render} pre={b01 a.isPre}"
     | none => "badreq"
   | "vsort", vs =>
     match vs.mapM decodeVersion with
